@@ -1211,7 +1211,14 @@ fn eval_cond(w: &World, c: &RCond, r: &RouteCtx, st: &AState, nh: &[Option<Nexth
                 }
             }
             Cond::Nexthop(list) => {
-                let rs: Vec<bool> = nh.iter().map(|n| n.is_some_and(|n| list.contains(&n.addr()))).collect();
+                for n in nh.iter().flatten() {
+                    if let Nexthop::V6LinkLocal(g, ll) = n {
+                        if list.contains(&IpAddr::V6(*ll)) && !list.contains(&IpAddr::V6(*g)) {
+                            return Err(Unjudged("nexthop-condition-lists-the-link-local-half"));
+                        }
+                    }
+                }
+                let rs: Vec<bool> = nh.iter().map(|n| n.is_some_and(|n| list.contains(&nh_forwarding_addr(&n)))).collect();
                 if rs.iter().all(|b| *b == rs[0]) { Ok(rs[0]) } else { Err(Unjudged("nexthop-ambiguous")) }
             }
             Cond::Rpki(want) => {
@@ -1704,6 +1711,25 @@ fn judge(ctx: &mut Ctx, asg: &PolicyAssignment, prog: &Program, r: &RouteCtx, ta
     };
     ctx.rep.count(&format!("{}:judged", tag));
     prefix_shape_counters(&mut ctx.rep, prog, r);
+    if let Some(Nexthop::V6LinkLocal(g, _)) = r.nh {
+        ctx.rep.count("nexthop:route-with-global+link-local");
+        for s in &prog.stmts {
+            for c in &s.conds {
+                if let RCond::Plain(Cond::Nexthop(list)) = c {
+                    ctx.rep.count("nexthop:condition-on-global+link-local-route");
+                    if list.contains(&IpAddr::V6(g)) {
+                        ctx.rep.count("nexthop:condition-lists-the-global-of-a-global+link-local-route");
+                    }
+                }
+            }
+            if s.actions.nexthop.is_some() {
+                ctx.rep.count("nexthop:action-in-program-on-global+link-local-route");
+            }
+        }
+    }
+    if matches!(r.orig_nh, Some(Nexthop::V6LinkLocal(..))) && prog.stmts.iter().any(|s| s.actions.nexthop == Some(NexthopAction::Unchanged)) {
+        ctx.rep.count("nexthop:unchanged-action-with-global+link-local-original");
+    }
     if let Some(pfx) = r.pfx {
         let wants: Vec<RpkiSt> = prog.stmts.iter().flat_map(|s| s.conds.iter()).filter_map(|c| if let RCond::Plain(Cond::Rpki(x)) = c { Some(*x) } else { None }).collect();
         if !wants.is_empty() {
@@ -1792,7 +1818,29 @@ const COMMS: [u32; 7] = [0xFDE9_0064, 0xFDE9_00C8, 0xFDEA_0064, 0xffff_ff01, 0xf
 const LARGES: [(u32, u32, u32); 4] = [(65001, 1, 2), (65001, 1, 3), (65002, 0, 0), (4_200_000_001, 7, 7)];
 const PEERS: [&str; 4] = ["192.0.2.1", "192.0.2.2", "198.51.100.7", "2001:db8:ffff::1"];
 const NEIGHBOR_NETS: [&str; 6] = ["192.0.2.1/32", "192.0.2.0/24", "192.0.2.0/31", "198.51.100.0/24", "2001:db8:ffff::/48", "2001:db8:ffff::1/128"];
-const NEXTHOPS: [&str; 5] = ["192.0.2.1", "192.0.2.254", "203.0.113.9", "2001:db8:ffff::1", "2001:db8::9"];
+const NEXTHOPS: [&str; 7] = ["192.0.2.1", "192.0.2.254", "203.0.113.9", "2001:db8:ffff::1", "2001:db8::9", "2001:db8:ffff::fe", "fe80::1"];
+/// global halves of IPv6 next hops of routes (most of them also occur in next-hop conditions)
+const V6_NH_GLOBALS: [&str; 4] = ["2001:db8:ffff::1", "2001:db8::9", "2001:db8:ffff::fe", "2001:db8::7"];
+const V6_NH_LINK_LOCALS: [&str; 3] = ["fe80::1", "fe80::abcd:1", "fe80::ffff:ffff:ffff:ffff"];
+
+/// an IPv6 next hop: global only, or global + link-local (RFC 2545, 32 octets on the wire)
+fn gen_v6_nexthop(rng: &mut Rng) -> Nexthop {
+    let g: Ipv6Addr = rng.pick(&V6_NH_GLOBALS).parse().unwrap();
+    if rng.chance(1, 2) {
+        Nexthop::V6LinkLocal(g, rng.pick(&V6_NH_LINK_LOCALS).parse().unwrap())
+    } else {
+        Nexthop::V6(g)
+    }
+}
+
+/// the address a next hop forwards to: the global address (GoBGP's `Path.GetNexthop`)
+fn nh_forwarding_addr(n: &Nexthop) -> IpAddr {
+    match n {
+        Nexthop::V4(a) => IpAddr::V4(*a),
+        Nexthop::V6(a) => IpAddr::V6(*a),
+        Nexthop::V6LinkLocal(g, _) => IpAddr::V6(*g),
+    }
+}
 
 fn ext_values() -> Vec<[u8; 8]> {
     let mut v = Vec::new();
@@ -2021,7 +2069,7 @@ fn gen_plain_cond(rng: &mut Rng) -> Cond {
     let cmp = *rng.pick(&[Cmp::Eq, Cmp::Ge, Cmp::Le]);
     match rng.below(9) {
         0 => Cond::AsPathLen(cmp, *rng.pick(&[0u32, 1, 2, 3, 4, 44, 255, 256, 300])),
-        1 => Cond::Nexthop((0..rng.range(1, 2)).map(|_| rng.pick(&NEXTHOPS).parse().unwrap()).collect()),
+        1 => Cond::Nexthop((0..rng.range(1, 3)).map(|_| rng.pick(&NEXTHOPS).parse().unwrap()).collect()),
         2 => Cond::Rpki(*rng.pick(&[RpkiSt::NotFound, RpkiSt::Valid, RpkiSt::Invalid])),
         3 => Cond::LocalPref(*rng.pick(&[100u32, 200, 0])),
         4 => Cond::Med(*rng.pick(&[0u32, 10, 50, u32::MAX])),
@@ -2295,7 +2343,7 @@ fn nlri_bytes(addr: u128, len: u8, v6: bool) -> Vec<u8> {
 
 /// build an UPDATE and run it through the real decoder; None if the decoder
 /// does not turn it into a route announcement
-fn decode_update(fam: Fam, pfx: (bool, u128, u8), wire_attrs: &[(u8, u8, Vec<u8>)], is_ebgp: bool) -> Option<(Nlri, Arc<Vec<Attribute>>, Option<Nexthop>, String)> {
+fn decode_update(fam: Fam, pfx: (bool, u128, u8), wire_attrs: &[(u8, u8, Vec<u8>)], is_ebgp: bool, v6_nh: Option<Nexthop>) -> Option<(Nlri, Arc<Vec<Attribute>>, Option<Nexthop>, String)> {
     let mut attrs = Vec::new();
     for (f, c, v) in wire_attrs {
         encode_attr(&mut attrs, *f, *c, v);
@@ -2308,8 +2356,9 @@ fn decode_update(fam: Fam, pfx: (bool, u128, u8), wire_attrs: &[(u8, u8, Vec<u8>
             let mut mp = Vec::new();
             match fam {
                 Fam::V6 => {
-                    mp.extend_from_slice(&[0, 2, 1, 16]);
-                    mp.extend_from_slice(&0x2001_0db8_ffff_0000_0000_0000_0000_0001u128.to_be_bytes());
+                    let nhb = v6_nh.map(|n| n.to_bytes()).unwrap_or_else(|| 0x2001_0db8_ffff_0000_0000_0000_0000_0001u128.to_be_bytes().to_vec());
+                    mp.extend_from_slice(&[0, 2, 1, nhb.len() as u8]);
+                    mp.extend_from_slice(&nhb);
                     mp.push(0);
                     mp.extend(nlri_bytes(pfx.1, pfx.2, true));
                 }
@@ -2429,7 +2478,8 @@ fn gen_route(rng: &mut Rng, w: &World, rep: &mut Report) -> RouteCtx {
     let wire_attrs = gen_wire_attrs(rng, fam != Fam::V4, try_wire);
     let mut done = None;
     if try_wire {
-        if let Some((nlri, attrs, nh, hx)) = decode_update(fam, (v6, addr, len), &wire_attrs, is_ebgp) {
+        let v6_nh = gen_v6_nexthop(rng);
+        if let Some((nlri, attrs, nh, hx)) = decode_update(fam, (v6, addr, len), &wire_attrs, is_ebgp, Some(v6_nh)) {
             rep.count("route-source:wire-decoder");
             done = Some((nlri, attrs, nh, Some(hx)));
         } else {
@@ -2447,7 +2497,7 @@ fn gen_route(rng: &mut Rng, w: &World, rep: &mut Report) -> RouteCtx {
             } else {
                 Nlri::V4(Ipv4Net { addr: Ipv4Addr::from(addr as u32), mask: len })
             };
-            let nh = nh.or(if v6 { Some(Nexthop::V6("2001:db8:ffff::1".parse().unwrap())) } else { None });
+            let nh = nh.or(if v6 { Some(gen_v6_nexthop(rng)) } else { None });
             (nlri, attrs, if rng.chance(1, 10) { None } else { nh }, None)
         }
     };
